@@ -1,7 +1,7 @@
 (* Calibration sketch (round 0): the ownership invariant of ConnLinear.v as a proposition, and its preservation. C13. *)
 From RecordUpdate Require Import RecordUpdate.
 From Coq Require Import List ZArith Lia Bool Arith.
-From L3 Require Import Msgid Conn ConnProofs ConnTimeouts ConnAccount.
+From L3 Require Import Msgid Conn ConnProofs ConnTimeouts ConnAccount ConnAlloc.
 Import ListNotations.
 Open Scope Z_scope.
 
@@ -22,7 +22,8 @@ Record Lin (s : st) : Prop := {
           (o_status c = SActive -> o_rx c = true) /\ (o_status c = CWait -> is_search c -> o_rx c = true) /\ (o_status c = SDone -> has_doneP c) /\
           (stream_status c -> is_search c);
   l_id : forall id, In id (inuse s) -> In id (scrubq s) \/
-          exists o c, getop s o = Some c /\ o_mid c = id /\ (In o (opq s) \/ In (id, o) (rmap s) \/ In (id, o) (smap s)) }.
+          exists o c, getop s o = Some c /\ o_mid c = id /\ (o_status c = CAlloc \/ In o (opq s) \/ In (id, o) (rmap s) \/ In (id, o) (smap s)) }.
+(* [o_status c = CAlloc]: the id was taken by a caller that has not yet handed its request to the driver (multi-thread callers: Alloc / Enqueue) *)
 
 Lemma Lin_init f : Lin (init f).
 Proof. constructor; cbn.
@@ -53,7 +54,8 @@ Proof.
   { destruct (smap s) as [|[k o] m] eqn:Er; [reflexivity|exfalso]. destruct (l_s s L k o) as (c & Hc & _ & _ & [Hw|Hsq] & _ & _); [rewrite Er; now left| |now rewrite Es in Hsq].
     specialize (Hfin c (nth_error_In _ _ Hc)). congruence. }
   unfold clean. rewrite Hrm, Hsm. destruct (inuse s) as [|id ids] eqn:Ei; [reflexivity|exfalso].
-  destruct (l_id s L id) as [H|(o & c & _ & _ & [H|[H|H]])]; [rewrite Ei; now left|..]; rewrite ?Es, ?Eq, ?Hrm, ?Hsm in H; exact H.
+  destruct (l_id s L id) as [H|(o & c & Hc & _ & [H|[H|[H|H]]])]; [rewrite Ei; now left|..]; rewrite ?Es, ?Eq, ?Hrm, ?Hsm in H; try exact H.
+  specialize (Hfin c (nth_error_In _ _ Hc)). unfold op_finished in Hfin. rewrite H in Hfin. discriminate.
 Qed.
 
 (* ---------- a frame lemma for everything the caller's side does ---------- *)
@@ -68,9 +70,10 @@ Lemma Lin_client s s' o c g : Lin s -> getop s o = Some c ->
   (In (o_mid c, o) (smap s) -> op_finished (g c) = false \/ In (o_mid c) (scrubq s')) ->
   ((o_status (g c) = SActive -> o_rx (g c) = true) /\ (o_status (g c) = CWait -> is_search c -> o_rx (g c) = true) /\ (o_status (g c) = SDone -> has_doneP c) /\
    (stream_status (g c) -> is_search c)) ->
+  o_status c <> CAlloc ->
   Lin s'.
 Proof.
-  intros L Hc Eo Eq Er Es Ei Hsq Hm Hk Hrp Hit Hit0 Hq Hr Hs Hst.
+  intros L Hc Eo Eq Er Es Ei Hsq Hm Hk Hrp Hit Hit0 Hq Hr Hs Hst Hna.
   assert (G : forall o', getop s' o' = if Nat.eqb o' o then Some (g c) else getop s o').
   { intros o'. unfold getop. rewrite Eo, nth_upd. destruct (Nat.eqb_spec o' o) as [->|]; [|reflexivity]. unfold getop in Hc. now rewrite Hc. }
   assert (Hd : has_doneP (g c) <-> has_doneP c) by (unfold has_doneP; split; intros (r & Hi & Hk'); exists r; (split; [now apply Hit|assumption])).
@@ -96,7 +99,8 @@ Proof.
     + exact (l_stat s L o' c' H).
   - intros id Hin. rewrite Ei in Hin. destruct (l_id s L id Hin) as [H|(o' & c' & Hc' & M & W)]; [left; now apply Hsq|right].
     destruct (Nat.eqb_spec o' o) as [->|Hne].
-    + rewrite Hc in Hc'. injection Hc' as <-. exists o, (g c). rewrite G, Nat.eqb_refl, Eq, Er, Es. repeat split; auto. congruence.
+    + rewrite Hc in Hc'. injection Hc' as <-. destruct W as [W|W]; [contradiction|]. exists o, (g c). rewrite G, Nat.eqb_refl, Eq, Er, Es.
+      split; [reflexivity|]. split; [congruence|]. right. exact W.
     + exists o', c'. rewrite G. destruct (Nat.eqb_spec o' o); [congruence|]. rewrite Eq, Er, Es. now repeat split.
 Qed.
 
@@ -117,6 +121,7 @@ Proof.
     + intros _. right. cbn [scrubq set]. apply in_or_app. right. now left.
     + intros Hin. destruct (l_s s L _ _ Hin) as (c' & Hc' & _ & R & _). rewrite Hc in Hc'. injection Hc' as <-. congruence.
     + cbn. repeat split; destruct (o_kind c) eqn:Ek; try discriminate; unfold is_search; rewrite ?Ek; try exact I; cbn; tauto.
+    + rewrite Hst; discriminate.
   - (* a value (or the acknowledgement) is there *)
     eapply (Lin_client s _ o c _ L Hc); try reflexivity; try tauto.
     + intros Hin. destruct (l_q s L o Hin) as (c' & Hc' & R & _). rewrite Hc in Hc'. injection Hc' as <-. congruence.
@@ -128,12 +133,14 @@ Proof.
       * destruct (o_kind c); discriminate.
       * destruct (o_kind c); discriminate.
       * destruct (o_kind c) eqn:Ek; cbn; try tauto. intros _. unfold is_search. now rewrite Ek.
+    + rewrite Hst; discriminate.
   - (* the sender was dropped *)
     eapply (Lin_client s _ o c _ L Hc); try reflexivity; try tauto.
     + intros Hin. destruct (l_q s L o Hin) as (c' & Hc' & R & _). rewrite Hc in Hc'. injection Hc' as <-. congruence.
     + intros Hin. destruct (l_r s L _ _ Hin) as (c' & Hc' & _ & R & _). rewrite Hc in Hc'. injection Hc' as <-. congruence.
     + intros Hin. destruct (l_s s L _ _ Hin) as (c' & Hc' & _ & R & _). rewrite Hc in Hc'. injection Hc' as <-. congruence.
     + cbn. repeat split; destruct (o_kind c) eqn:Ek; try discriminate; unfold is_search; rewrite ?Ek; try exact I; cbn; tauto.
+    + rewrite Hst; discriminate.
 Qed.
 
 (* the frame lemma specialised to an op that is neither queued nor in the result map (a started stream) *)
@@ -143,9 +150,9 @@ Lemma Lin_client_stream s s' o c g : Lin s -> getop s o = Some c -> ~ In o (opq 
   o_mid (g c) = o_mid c -> o_kind (g c) = o_kind c -> o_reply (g c) = o_reply c -> o_items (g c) = o_items c ->
   (In (o_mid c, o) (smap s) -> op_finished (g c) = false \/ In (o_mid c) (scrubq s')) ->
   (o_status (g c) = SActive -> o_rx (g c) = true) -> o_status (g c) <> CWait -> (o_status (g c) = SDone -> has_doneP c) ->
-  (stream_status (g c) -> is_search c) -> Lin s'.
+  (stream_status (g c) -> is_search c) -> o_status c <> CAlloc -> Lin s'.
 Proof.
-  intros L Hc Nq Nr Eo Eq Er Es Ei Hsq Hm Hk Hrp Hit Hs S1 S2 S3 S4.
+  intros L Hc Nq Nr Eo Eq Er Es Ei Hsq Hm Hk Hrp Hit Hs S1 S2 S3 S4 Hna.
   eapply (Lin_client s s' o c g L Hc); try assumption; try tauto.
   - intros r. now rewrite Hit. - intros E. now rewrite Hit.
 Qed.
@@ -165,7 +172,7 @@ Proof.
       | (cbn; intros _; now apply S1)
       | (cbn; rewrite Hst; discriminate)
       | (cbn; rewrite Hst; discriminate)
-      | (intros _; exact IS) ]; fail).
+      | (intros _; exact IS) | (rewrite Hst; discriminate) ]; fail).
     (* the SearchResultDone is taken: the driver removed the routing entry when it queued it *)
     assert (HD : has_doneP c) by (exists r; split; [eapply nth_error_In; eassumption|assumption]).
     assert (Ekd : exists ad, o_kind c = KSearch ad) by (unfold is_search in IS; destruct (o_kind c); try contradiction; eauto).
@@ -176,7 +183,7 @@ Proof.
       | (cbn; rewrite Ekd, H7, orb_true_r; discriminate)
       | (cbn; rewrite Ekd, H7, orb_true_r; discriminate)
       | (intros _; exact HD)
-      | (intros _; exact IS) ].
+      | (intros _; exact IS) | (rewrite Hst; discriminate) ].
   - assert (Pending : forall t0, Lin (updop o (fun c0 => c0 <| o_call := Some t0 |>) s)).
     { intros t0. apply (Lin_client_stream s _ o c (fun c0 => c0 <| o_call := Some t0 |>) L Hc Nq Nr);
       [ reflexivity | reflexivity | reflexivity | reflexivity | reflexivity | (intros; assumption) | reflexivity | reflexivity | reflexivity | reflexivity
@@ -184,17 +191,17 @@ Proof.
       | (cbn; intros _; now apply S1)
       | (cbn; rewrite Hst; discriminate)
       | (cbn; rewrite Hst; discriminate)
-      | (intros _; exact IS) ]. }
+      | (intros _; exact IS) | (rewrite Hst; discriminate) ]. }
     destruct (o_chan c); cbn [negb].
     + destruct (o_tmo c) as [d|]; [|apply Pending]. match goal with |- context [if ?b then _ else _] => destruct b end; [|apply Pending]. rewrite Hr.
       match goal with |- Lin (set scrubq _ (updop _ ?g _)) => apply (Lin_client_stream s _ o c g L Hc Nq Nr) end;
       [ reflexivity | reflexivity | reflexivity | reflexivity | reflexivity | (intros x Hx; cbn [scrubq set]; apply in_or_app; now left)
       | reflexivity | reflexivity | reflexivity | reflexivity
-      | (intros _; now left) | (cbn; discriminate) | (cbn; discriminate) | (cbn; discriminate) | (intros _; exact IS) ].
+      | (intros _; now left) | (cbn; discriminate) | (cbn; discriminate) | (cbn; discriminate) | (intros _; exact IS) | (rewrite Hst; discriminate) ].
     + match goal with |- Lin (updop _ ?g _) => apply (Lin_client_stream s _ o c g L Hc Nq Nr) end;
       [ reflexivity | reflexivity | reflexivity | reflexivity | reflexivity | (intros; assumption)
       | reflexivity | reflexivity | reflexivity | reflexivity
-      | (intros _; now left) | (cbn; discriminate) | (cbn; discriminate) | (cbn; discriminate) | (intros _; exact IS) ].
+      | (intros _; now left) | (cbn; discriminate) | (cbn; discriminate) | (cbn; discriminate) | (intros _; exact IS) | (rewrite Hst; discriminate) ].
 Qed.
 
 Lemma Lin_streamfinish s o : Lin s -> Chan s -> is_running s = true -> Lin (step s (StreamFinish o)).
@@ -212,13 +219,13 @@ Proof.
     apply (Lin_client_stream s _ o c (fun c0 => c0 <| o_status := SClosed |> <| o_rx := false |>) L Hc (Nq (or_introl eq_refl) SS) (Nr SS));
       [ reflexivity | reflexivity | reflexivity | reflexivity | reflexivity | (intros x Hx; cbn [scrubq set]; apply in_or_app; now left)
       | reflexivity | reflexivity | reflexivity | reflexivity
-      | (intros _; right; cbn [scrubq set]; apply in_or_app; right; now left) | (cbn; discriminate) | (cbn; discriminate) | (cbn; discriminate) | (intros _; now apply S4) ].
+      | (intros _; right; cbn [scrubq set]; apply in_or_app; right; now left) | (cbn; discriminate) | (cbn; discriminate) | (cbn; discriminate) | (intros _; now apply S4) | (rewrite Hst; discriminate) ].
   - (* Done: no scrub is sent — the id was released when the driver saw the SearchResultDone *)
     apply (Lin_client_stream s _ o c (fun c0 => c0 <| o_status := SClosed |> <| o_rx := false |>) L Hc (Nq (or_intror (or_introl eq_refl)) SS) (Nr SS));
       [ reflexivity | reflexivity | reflexivity | reflexivity | reflexivity | (intros; assumption)
       | reflexivity | reflexivity | reflexivity | reflexivity
       | (intros Hin; exfalso; destruct (l_s s L _ _ Hin) as (c' & Hc' & _ & _ & _ & ND & _); rewrite Hc in Hc'; injection Hc' as <-; apply ND, S3; reflexivity)
-      | (cbn; discriminate) | (cbn; discriminate) | (cbn; discriminate) | (intros _; now apply S4) ].
+      | (cbn; discriminate) | (cbn; discriminate) | (cbn; discriminate) | (intros _; now apply S4) | (rewrite Hst; discriminate) ].
   - (* Error *)
     destruct (fix20 (fx s)).
     { (* repaired (F20): no second scrub; if the routing entry is still there, the scrub sent when next() timed out is still queued *)
@@ -226,11 +233,11 @@ Proof.
       [ reflexivity | reflexivity | reflexivity | reflexivity | reflexivity | (intros; assumption)
       | reflexivity | reflexivity | reflexivity | reflexivity
       | (intros Hin; right; exact (proj2 (proj1 CH _ _ _ Hin Hc) Hst))
-      | (cbn; discriminate) | (cbn; discriminate) | (cbn; discriminate) | (intros _; now apply S4) ]. }
+      | (cbn; discriminate) | (cbn; discriminate) | (cbn; discriminate) | (intros _; now apply S4) | (rewrite Hst; discriminate) ]. }
     apply (Lin_client_stream s _ o c (fun c0 => c0 <| o_status := SClosed |> <| o_rx := false |>) L Hc (Nq (or_intror (or_intror eq_refl)) SS) (Nr SS));
       [ reflexivity | reflexivity | reflexivity | reflexivity | reflexivity | (intros x Hx; cbn [scrubq set]; apply in_or_app; now left)
       | reflexivity | reflexivity | reflexivity | reflexivity
-      | (intros _; right; cbn [scrubq set]; apply in_or_app; right; now left) | (cbn; discriminate) | (cbn; discriminate) | (cbn; discriminate) | (intros _; now apply S4) ].
+      | (intros _; right; cbn [scrubq set]; apply in_or_app; right; now left) | (cbn; discriminate) | (cbn; discriminate) | (cbn; discriminate) | (intros _; now apply S4) | (rewrite Hst; discriminate) ].
 Qed.
 
 Lemma Lin_same s s' : Lin s -> ops s' = ops s -> opq s' = opq s -> rmap s' = rmap s -> smap s' = smap s -> inuse s' = inuse s -> scrubq s' = scrubq s -> Lin s'.
@@ -283,9 +290,69 @@ Proof.
   - intros o c H. rewrite G in H. destruct (Nat.ltb o n); [exact (l_stat s L o c H)|]. destruct (Nat.eqb o n); [|discriminate]. injection H as <-.
     cbn. repeat split; try discriminate; [|intros []]. intros _ IS. unfold is_search, onew in IS. cbn in IS. destruct k; try contradiction; reflexivity.
   - intros id Hin. cbn [inuse set] in Hin. destruct Hin as [<-|Hin].
-    + right. exists n, onew. rewrite G. destruct (Nat.ltb_spec n n); [lia|]. rewrite Nat.eqb_refl. repeat split. left. apply in_or_app. right. now left.
+    + right. exists n, onew. rewrite G. destruct (Nat.ltb_spec n n); [lia|]. rewrite Nat.eqb_refl. repeat split. right. left. apply in_or_app. right. now left.
     + destruct (l_id s L id Hin) as [H|(o & c & Hc & M & W)]; [now left|right]. exists o, c. repeat split; [now apply Gold|assumption|].
-      destruct W as [W|W]; [left; apply in_or_app; now left|now right].
+      destruct W as [W|[W|W]]; [now left|right; left; apply in_or_app; now left|right; now right].
+Qed.
+
+Lemma G_updop_l s o c g : getop s o = Some c -> forall o', getop (updop o g s) o' = if Nat.eqb o' o then Some (g c) else getop s o'.
+Proof. intros Hc o'. unfold getop, updop. cbn [ops set]. rewrite nth_upd. unfold getop in Hc. destruct (Nat.eqb_spec o' o) as [->|]; [now rewrite Hc|reflexivity]. Qed.
+
+(* ---------- Alloc / Enqueue: the two halves of a start, for callers on several threads ---------- *)
+Lemma Lin_alloc s k tmo : Lin s -> NoDup (map o_mid (ops (step s (Alloc k tmo)))) -> Lin (step s (Alloc k tmo)).
+Proof.
+  intros L. cbn [step]. unfold alloc. destruct (next_msgid (last s) (inuse s)) as [mid| |]; try (intros; exact L).
+  set (onew := mkOp mid k None CAlloc OsClosed [] 0 false false [] None tmo None).
+  set (n := length (ops s)). intros Hnd. cbn [ops set] in Hnd. rewrite map_app in Hnd. cbn [map] in Hnd. change (o_mid onew) with mid in Hnd.
+  assert (Hfresh : forall o c, getop s o = Some c -> o_mid c <> mid).
+  { intros o c Hc E. apply NoDup_remove_2 in Hnd. rewrite app_nil_r in Hnd. apply Hnd. rewrite <- E. apply in_map. eapply nth_error_In; eassumption. }
+  set (s' := s <| last := mid |> <| inuse ::= cons mid |> <| ops ::= fun l => l ++ [onew] |>).
+  assert (G : forall o, getop s' o = if Nat.ltb o n then getop s o else if Nat.eqb o n then Some onew else None).
+  { intros o. unfold getop, s', n. cbn [ops set]. destruct (Nat.ltb_spec o (length (ops s))); [now rewrite nth_error_app1|].
+    rewrite nth_error_app2 by lia. destruct (Nat.eqb_spec o (length (ops s))) as [->|]; [now rewrite Nat.sub_diag|].
+    destruct (o - length (ops s))%nat as [|[|m]] eqn:E; [lia|reflexivity|reflexivity]. }
+  assert (Hlt : forall o c, getop s o = Some c -> (o < n)%nat) by (intros o c H; unfold n; apply nth_error_Some; unfold getop in H; congruence).
+  assert (Gold : forall o c, getop s o = Some c -> getop s' o = Some c).
+  { intros o c H. rewrite G. destruct (Nat.ltb_spec o n); [assumption|]. pose proof (Hlt o c H). lia. }
+  constructor.
+  - apply L.
+  - intros o Hin. change (In o (opq s)) in Hin. destruct (l_q s L o Hin) as (c & Hc & R & Nr & Ns & It & Q & W). exists c. split; [now apply Gold|]. do 5 (split; [assumption|]).
+    intros Hw. destruct (W Hw) as [H|H]; [now left|right]. cbn [inuse set]. intros [E|E]; [apply (Hfresh o c Hc); now symmetry|contradiction].
+  - intros k0 o Hin. destruct (l_r s L k0 o Hin) as (c & Hc & A). exists c. split; [now apply Gold|exact A].
+  - intros k0 o Hin. destruct (l_s s L k0 o Hin) as (c & Hc & A). exists c. split; [now apply Gold|exact A].
+  - intros o c H. rewrite G in H. destruct (Nat.ltb o n); [exact (l_stat s L o c H)|]. destruct (Nat.eqb o n); [|discriminate]. injection H as <-.
+    cbn. repeat split; try discriminate. intros [].
+  - intros id Hin. cbn [inuse set] in Hin. destruct Hin as [<-|Hin].
+    + right. exists n, onew. rewrite G. destruct (Nat.ltb_spec n n); [lia|]. rewrite Nat.eqb_refl. repeat split. now left.
+    + destruct (l_id s L id Hin) as [H|(o & c & Hc & M & W)]; [now left|right]. exists o, c. repeat split; [now apply Gold|assumption|exact W].
+Qed.
+
+Lemma Lin_enqueue s o : Lin s -> Al s -> is_running s = true -> Lin (step s (Enqueue o)).
+Proof.
+  intros L A Hr. cbn [step]. unfold enqueue. destruct (getop s o) as [c|] eqn:Hc; [|exact L]. destruct (o_status c) eqn:Hst; try exact L. rewrite Hr.
+  destruct (A o c Hc Hst) as (Rc & Xc & Cc & Ic).
+  set (g := fun c0 : cop => c0 <| o_status := CWait |> <| o_deadline := option_map (Z.add (now s)) (o_tmo c0) |> <| o_reply := OsEmpty |>
+                               <| o_chan := is_search_kind (o_kind c0) |> <| o_rx := is_search_kind (o_kind c0) |>).
+  assert (G : forall o', getop (updop o g s <| opq ::= fun q => q ++ [o] |>) o' = if Nat.eqb o' o then Some (g c) else getop s o').
+  { intros o'. change (getop (updop o g s) o' = if Nat.eqb o' o then Some (g c) else getop s o'). now apply G_updop_l. }
+  assert (Nq : ~ In o (opq s)). { intros H. destruct (l_q s L o H) as (c' & Hc' & R & _). rewrite Hc in Hc'. injection Hc' as <-. congruence. }
+  assert (Nr : forall k0, ~ In (k0, o) (rmap s)). { intros k0 H. destruct (l_r s L k0 o H) as (c' & Hc' & _ & R & _). rewrite Hc in Hc'. injection Hc' as <-. congruence. }
+  assert (Ns : forall k0, ~ In (k0, o) (smap s)). { intros k0 H. destruct (l_s s L k0 o H) as (c' & Hc' & _ & R & _). rewrite Hc in Hc'. injection Hc' as <-. congruence. }
+  constructor.
+  - change (NoDup (opq s ++ [o])). apply NoDup_app_cons_end; [exact Nq|apply L].
+  - intros o' Hin. change (In o' (opq s ++ [o])) in Hin. rewrite G. apply in_app_or in Hin as [Hin|[<-|[]]].
+    + destruct (Nat.eqb_spec o' o) as [->|Hne]; [contradiction|]. exact (l_q s L o' Hin).
+    + rewrite Nat.eqb_refl. exists (g c). split; [reflexivity|]. split; [reflexivity|]. split; [exact Nr|]. split; [exact Ns|].
+      split; [exact Ic|]. split; [exact I|]. intros W. discriminate W.
+  - intros k0 o' Hin. change (In (k0, o') (rmap s)) in Hin. rewrite G. destruct (Nat.eqb_spec o' o) as [->|Hne]; [now elim (Nr k0)|]. exact (l_r s L k0 o' Hin).
+  - intros k0 o' Hin. change (In (k0, o') (smap s)) in Hin. rewrite G. destruct (Nat.eqb_spec o' o) as [->|Hne]; [now elim (Ns k0)|]. exact (l_s s L k0 o' Hin).
+  - intros o' c' H. rewrite G in H. destruct (Nat.eqb_spec o' o) as [->|Hne]; [|exact (l_stat s L o' c' H)]. injection H as <-.
+    cbn. repeat split; try discriminate; [|intros []]. intros _ IS. unfold is_search in IS. cbn in IS. destruct (o_kind c); try contradiction; reflexivity.
+  - intros id Hin. change (In id (inuse s)) in Hin. destruct (l_id s L id Hin) as [H|(o' & c' & Hc' & M & W)]; [now left|right].
+    destruct (Nat.eq_dec o' o) as [->|Hne].
+    + rewrite Hc in Hc'. injection Hc' as <-. exists o, (g c). rewrite G, Nat.eqb_refl. split; [reflexivity|]. split; [exact M|]. right. left. apply in_or_app. right. now left.
+    + exists o', c'. rewrite G. destruct (Nat.eqb_spec o' o); [contradiction|]. split; [assumption|]. split; [assumption|].
+      destruct W as [W|[W|W]]; [now left|right; left; apply in_or_app; now left|right; now right].
 Qed.
 
 (* ---------- driver-side helpers ---------- *)
@@ -371,8 +438,8 @@ Proof.
     apply l_stat_soft; [assumption|]. exact (l_stat s L o c Hc).
   - intros i. rewrite Iu, In_rem, Sq. intros [Hne Hin]. destruct (l_id s L i Hin) as [H|(o & c & Hc & M & W)].
     + rewrite Q in H. destruct H as [H|H]; [congruence|now left].
-    + right. destruct (G o) as (g & Hg & Gc & _). exists o, (g c). rewrite Gc, Hc. split; [reflexivity|]. destruct (Hg c) as (e1 & _). split; [congruence|].
-      rewrite Oq, Rm, Sm, !In_arem. tauto.
+    + right. destruct (G o) as (g & Hg & Gc & _). exists o, (g c). rewrite Gc, Hc. split; [reflexivity|]. destruct (Hg c) as (e1 & _ & e3 & _). split; [congruence|].
+      rewrite e3, Oq, Rm, Sm, !In_arem. tauto.
 Qed.
 
 (* ---------- a driver step that touches one op which is not queued ---------- *)
@@ -413,7 +480,7 @@ Proof.
   - intros id Hin. rewrite Esq. destruct (l_id s L id (Ii _ Hin)) as [H|(o' & c' & Hc' & M & W)]; [now left|right].
     destruct (Hid id o' Hin) as [P1 P2]. rewrite Eq.
     destruct (Nat.eqb_spec o' o) as [->|Hne].
-    + rewrite Hc in Hc'. injection Hc' as <-. exists o, (g c). rewrite G, Nat.eqb_refl. split; [reflexivity|]. split; [congruence|]. tauto.
+    + rewrite Hc in Hc'. injection Hc' as <-. exists o, (g c). rewrite G, Nat.eqb_refl. split; [reflexivity|]. split; [congruence|]. rewrite Hst. tauto.
     + exists o', c'. rewrite G. destruct (Nat.eqb_spec o' o); [congruence|]. split; [assumption|]. split; [assumption|]. tauto.
 Qed.
 
@@ -517,8 +584,9 @@ Proof.
     destruct (l_id s L i (Ii _ Hin)) as [H|(o' & c0 & Hc0 & M & W)]; [now left|].
     destruct (Nat.eq_dec o' o) as [->|Hne].
     + rewrite Hc in Hc0. injection Hc0 as <-. destruct (P3 (eq_sym M)) as [H|[H|H]]; [right|right|now left]; exists o, c'; (split; [assumption|split; [congruence|tauto]]).
-    + right. destruct (G o' Hne) as (g & Hg & Gc & _). exists o', (g c0). rewrite Gc, Hc0. split; [reflexivity|]. destruct (Hg c0) as (e1 & _). split; [congruence|].
-      destruct (Hid i o' Hin) as (P1 & P2 & _). rewrite Eq in W. destruct W as [[W|W]|[W|W]]; [congruence|now left|right; left; now apply P1|right; right; now apply P2].
+    + right. destruct (G o' Hne) as (g & Hg & Gc & _). exists o', (g c0). rewrite Gc, Hc0. split; [reflexivity|]. destruct (Hg c0) as (e1 & _ & e3 & _). split; [congruence|].
+      destruct (Hid i o' Hin) as (P1 & P2 & _). rewrite Eq in W.
+      destruct W as [W|[[W|W]|[W|W]]]; [left; congruence|congruence|right; now left|right; right; left; now apply P1|right; right; right; now apply P2].
 Qed.
 
 (* ---------- DrvOp ---------- *)
@@ -690,9 +758,9 @@ Ltac projt P lem1 lem2 :=
                  | |- context [match ?x with _ => _ end] => destruct x
                  end ].
 Lemma fx_step s e : fx (step s e) = fx s.
-Proof. destruct e; unfold step; projt fx fx_end_driver fx_drop_entry. Qed.
+Proof. destruct e; unfold step, alloc, enqueue; projt fx fx_end_driver fx_drop_entry. Qed.
 Lemma drv_step_ended s e : is_running s = false -> drv (step s e) = drv s.
-Proof. intros H. destruct e; unfold step; rewrite ?H; cbn [negb]; try reflexivity; projt drv drv_drop_entry drv_drop_entry. Qed.
+Proof. intros H. destruct e; unfold step, alloc, enqueue; rewrite ?H; cbn [negb]; try reflexivity; projt drv drv_drop_entry drv_drop_entry. Qed.
 Lemma running_back s e : is_running (step s e) = true -> is_running s = true.
 Proof. destruct (is_running s) eqn:E; [reflexivity|]. intros H. unfold is_running in H. rewrite (drv_step_ended s e E) in H. fold (is_running s) in H. congruence. Qed.
 
@@ -710,9 +778,9 @@ Qed.
 (* ---------- every event preserves the invariant on the repaired model, while the driver runs ---------- *)
 (* [DrvEnd Running] is an artefact of reusing [dstatus] as the event's argument: a driver does not end into the running state *)
 Definition wf_ev (e : ev) : Prop := e <> DrvEnd Running.
-Theorem step_Lin s e : wf_ev e -> keyed s -> Lin s -> Chan s -> fx s = repaired -> is_running (step s e) = true -> NoDup (map o_mid (ops (step s e))) -> Lin (step s e).
+Theorem step_Lin s e : wf_ev e -> keyed s -> Lin s -> Chan s -> Al s -> fx s = repaired -> is_running (step s e) = true -> NoDup (map o_mid (ops (step s e))) -> Lin (step s e).
 Proof.
-  intros We K L CH F Hr' Hnd. pose proof (running_back s e Hr') as Hr.
+  intros We K L CH AL F Hr' Hnd. pose proof (running_back s e Hr') as Hr.
   assert (Hnd0 : NoDup (map o_mid (ops s))) by (eapply oext_mids_nodup; [apply (step_sext s e K)|exact Hnd]).
   destruct e.
   - now apply Lin_start.
@@ -725,6 +793,8 @@ Proof.
   - apply Lin_streamnext; try assumption; now rewrite F.
   - now apply Lin_streamfinish.
   - apply (Lin_same s); try reflexivity. exact L.
+  - now apply Lin_alloc.
+  - now apply Lin_enqueue.
 Qed.
 
 (* ---------- the companion invariant is preserved as well ---------- *)
@@ -834,6 +904,48 @@ Proof.
   - intros o c Hin Hg IS. change (In o (opq s ++ [n])) in Hin. rewrite G in Hg. apply in_app_or in Hin as [Hin|[<-|[]]].
     + destruct (l_q s L o Hin) as (c0 & Hc0 & _). destruct (Nat.ltb_spec o n); [|pose proof (Hlt o c0 Hc0); lia]. exact (C2 o c Hin Hg IS).
     + destruct (Nat.ltb_spec n n); [lia|]. rewrite Nat.eqb_refl in Hg. injection Hg as <-. unfold is_search, onew in IS. cbn in IS. unfold onew. cbn. destruct k; try contradiction; reflexivity.
+Qed.
+
+
+Lemma Chan_alloc s k tmo : Lin s -> Chan s -> Chan (step s (Alloc k tmo)).
+Proof.
+  intros L [C1 C2]. cbn [step]. unfold alloc. destruct (next_msgid (last s) (inuse s)) as [mid| |]; try (split; assumption).
+  set (onew := mkOp mid k None CAlloc OsClosed [] 0 false false [] None tmo None).
+  set (n := length (ops s)).
+  set (s' := s <| last := mid |> <| inuse ::= cons mid |> <| ops ::= fun l => l ++ [onew] |>).
+  assert (G : forall o, getop s' o = if Nat.ltb o n then getop s o else if Nat.eqb o n then Some onew else None).
+  { intros o. unfold getop, s', n. cbn [ops set]. destruct (Nat.ltb_spec o (length (ops s))); [now rewrite nth_error_app1|].
+    rewrite nth_error_app2 by lia. destruct (Nat.eqb_spec o (length (ops s))) as [->|]; [now rewrite Nat.sub_diag|].
+    destruct (o - length (ops s))%nat as [|[|m]] eqn:E; [lia|reflexivity|reflexivity]. }
+  assert (Hlt : forall o c, getop s o = Some c -> (o < n)%nat) by (intros o c H; unfold n; apply nth_error_Some; unfold getop in H; congruence).
+  split.
+  - intros k0 o c Hin Hg. change (smap s') with (smap s) in Hin. change (scrubq s') with (scrubq s).
+    destruct (l_s s L k0 o Hin) as (c0 & Hc0 & _). rewrite G in Hg. destruct (Nat.ltb_spec o n); [|pose proof (Hlt o c0 Hc0); lia].
+    exact (C1 k0 o c Hin Hg).
+  - intros o c Hin Hg IS. change (In o (opq s)) in Hin. rewrite G in Hg.
+    destruct (l_q s L o Hin) as (c0 & Hc0 & _). destruct (Nat.ltb_spec o n); [|pose proof (Hlt o c0 Hc0); lia]. exact (C2 o c Hin Hg IS).
+Qed.
+
+Lemma Chan_enqueue s o : Lin s -> Al s -> Chan s -> Chan (step s (Enqueue o)).
+Proof.
+  intros L A [C1 C2]. cbn [step]. unfold enqueue. destruct (getop s o) as [c|] eqn:Hc; [|split; assumption]. destruct (o_status c) eqn:Hst; try (split; assumption).
+  destruct (A o c Hc Hst) as (Rc & Xc & Cc & Ic).
+  assert (Ns : forall k0, ~ In (k0, o) (smap s)). { intros k0 H. destruct (l_s s L k0 o H) as (c' & Hc' & _ & R & _). rewrite Hc in Hc'. injection Hc' as <-. congruence. }
+  assert (Nq : ~ In o (opq s)). { intros H. destruct (l_q s L o H) as (c' & Hc' & R & _). rewrite Hc in Hc'. injection Hc' as <-. congruence. }
+  destruct (is_running s).
+  - match goal with |- Chan (set opq _ (updop _ ?g0 _)) => set (g := g0) end.
+    assert (G : forall o', getop (updop o g s <| opq ::= fun q => q ++ [o] |>) o' = if Nat.eqb o' o then Some (g c) else getop s o').
+    { intros o'. change (getop (updop o g s) o' = if Nat.eqb o' o then Some (g c) else getop s o'). now apply G_updop. }
+    split.
+    + intros k0 o' c' Hin Hg. change (In (k0, o') (smap s)) in Hin. rewrite G in Hg. destruct (Nat.eqb_spec o' o) as [->|Hne]; [now elim (Ns k0)|]. exact (C1 k0 o' c' Hin Hg).
+    + intros o' c' Hin Hg IS. change (In o' (opq s ++ [o])) in Hin. rewrite G in Hg. destruct (Nat.eqb_spec o' o) as [->|Hne].
+      * injection Hg as <-. unfold is_search in IS. cbn in IS. cbn. destruct (o_kind c); try contradiction; reflexivity.
+      * apply in_app_or in Hin as [Hin|[E|[]]]; [|now elim Hne]. exact (C2 o' c' Hin Hg IS).
+  - match goal with |- Chan (updop _ ?g0 _) => set (g := g0) end.
+    pose proof (G_updop s o c g Hc) as G.
+    split.
+    + intros k0 o' c' Hin Hg. change (In (k0, o') (smap s)) in Hin. rewrite G in Hg. destruct (Nat.eqb_spec o' o) as [->|Hne]; [now elim (Ns k0)|]. exact (C1 k0 o' c' Hin Hg).
+    + intros o' c' Hin Hg IS. change (In o' (opq s)) in Hin. rewrite G in Hg. destruct (Nat.eqb_spec o' o) as [->|Hne]; [contradiction|]. exact (C2 o' c' Hin Hg IS).
 Qed.
 
 (* the two drops a scrub / an abandon performs: which fields of which operation they touch *)
@@ -998,9 +1110,9 @@ Proof.
   - (* KUnbind *) apply Chan_end.
 Qed.
 
-Theorem step_Chan s e : wf_ev e -> Lin s -> Chan s -> fx s = repaired -> is_running s = true -> NoDup (map o_mid (ops s)) -> Chan (step s e).
+Theorem step_Chan s e : wf_ev e -> Lin s -> Chan s -> Al s -> fx s = repaired -> is_running s = true -> NoDup (map o_mid (ops s)) -> Chan (step s e).
 Proof.
-  intros We L CH F Hr Hnd. destruct e.
+  intros We L CH AL F Hr Hnd. destruct e.
   - now apply Chan_start.
   - apply Chan_op; try assumption; now rewrite F.
   - now apply Chan_scrub.
@@ -1011,6 +1123,8 @@ Proof.
   - now apply Chan_streamnext.
   - now apply Chan_streamfinish.
   - apply (Chan_same s); try reflexivity. exact CH.
+  - now apply Chan_alloc.
+  - now apply Chan_enqueue.
 Qed.
 
 Theorem reachable_Lin_Chan evs : Forall wf_ev evs -> is_running (run repaired evs) = true -> NoDup (map o_mid (ops (run repaired evs))) ->
@@ -1023,7 +1137,7 @@ Proof.
   { clear. induction evs as [|e evs IH] using rev_ind; [reflexivity|]. now rewrite run_snoc, fx_step. }
   assert (Hnd0 : NoDup (map o_mid (ops (run repaired evs)))) by (eapply oext_mids_nodup; [apply (step_sext _ e K)|exact Hnd]).
   pose proof (running_back _ e Hr) as Hr0.
-  destruct (IH Hwf Hr0 Hnd0) as [L CH].
+  destruct (IH Hwf Hr0 Hnd0) as [L CH]. pose proof (reachable_Al repaired evs) as AL.
   split; [apply step_Lin; assumption|apply step_Chan; assumption].
 Qed.
 Theorem reachable_Lin evs : Forall wf_ev evs -> is_running (run repaired evs) = true -> NoDup (map o_mid (ops (run repaired evs))) -> Lin (run repaired evs).
